@@ -494,7 +494,7 @@ def history_coupled_run(segments, mius):
 
 def history_fullstack_run(segments, cfg):
     """the same history through two real LLCs, two real SnepServer threads on the serving side"""
-    link = llcpair.Link({'miu': cfg['miu_i'], 'agf': cfg['agf']}, {'miu': cfg['miu_t'], 'agf': cfg['agf']})
+    link = llcpair.Link({'miu': cfg['miu_i'], 'agf': cfg['agf']}, {'miu': cfg['miu_t'], 'agf': cfg['agf']}, dep=bool(cfg.get('dep')))
     srv_llc = link.llc[cfg['srv_side']]
     cl_llc = link.llc['i' if cfg['srv_side'] == 't' else 't']
     ans = history_answers(segments)
@@ -519,7 +519,7 @@ def history_fullstack_run(segments, cfg):
 
 def fullstack_run(kind, ops, cfg, max_acc, answers):
     """real LLC pair, real server thread, real client; -> dict(results, log, send_miu, recv_miu, frames)"""
-    link = llcpair.Link({'miu': cfg['miu_i'], 'agf': cfg['agf']}, {'miu': cfg['miu_t'], 'agf': cfg['agf']})
+    link = llcpair.Link({'miu': cfg['miu_i'], 'agf': cfg['agf']}, {'miu': cfg['miu_t'], 'agf': cfg['agf']}, dep=bool(cfg.get('dep')))
     srv_llc = link.llc[cfg['srv_side']]
     cl_llc = link.llc['i' if cfg['srv_side'] == 't' else 't']
     if kind == 'snep':
